@@ -437,7 +437,7 @@ def rand_array_case(rng, seed):
 
 def main(ctx):
     rng = ctx.rng
-    ctx.proof = common.check_proofs('C06')
+    ctx.proof = common.check_proofs('C06', extra_targets=['Model/PipeCase.vo'])
     boost = 1 if ctx.proof.ok else 3
     thorough = ctx.thorough()
     # ---------------- pipes: exhaustive small domains + random larger ones
@@ -450,8 +450,8 @@ def main(ctx):
     ex6 = list(enum_pipes([], 3, 2, (1, 2), (0,)))                     # no charges, <= 3 legs
     n_ex = 0
     stride_note = []
-    for name, ex, budget in (('U1', ex1, 4000), ('Z2', ex2, 2000), ('Z3', ex3, 1500), ('single', ex4, 3000),
-                             ('U1xZ2', ex5, 1500), ('q0', ex6, 600)):
+    for name, ex, budget in (('U1', ex1, 2400), ('Z2', ex2, 1200), ('Z3', ex3, 900), ('single', ex4, 1500),
+                             ('U1xZ2', ex5, 900), ('q0', ex6, 400)):
         budget = budget * (12 if thorough else 1) * boost
         if len(ex) > budget:
             step = len(ex) / float(budget)
@@ -462,7 +462,7 @@ def main(ctx):
             stride_note.append('%s: complete (%d)' % (name, len(ex)))
         pipes += ex
         n_ex += len(ex)
-    nrand = ctx.pick(1500, 15000) * boost
+    nrand = ctx.pick(1000, 12000) * boost
     for _ in range(nrand):
         c = rand_pipe(rng, maxlegs=4)
         tot = 1
@@ -523,7 +523,7 @@ def main(ctx):
     # ---------------- leg operations
     lcases = [c['case'] for c in common.corpus_cases('C06') if c.get('stream') == 'leg']
     ex_legs = [([1], l) for l in enum_legs([1], 3, (0, 1, 2), (0, 1))] + [([2, 1], l) for l in enum_legs([2, 1], 2, (1, 2), (0, 1))]
-    lbudget = ctx.pick(1200, 12000) * boost
+    lbudget = ctx.pick(800, 8000) * boost
     if len(ex_legs) > lbudget:
         step = len(ex_legs) / float(lbudget)
         ex_legs = [ex_legs[int(i * step)] for i in range(lbudget)]
@@ -531,7 +531,7 @@ def main(ctx):
         n = sum(l[0])
         lcases.append({'mods': mods, 'leg': l, 'mask': [rng.random() < 0.6 for _ in range(n)],
                        'extra': rng.choice([0, 1, 2, rand_leg(rng, mods)])})
-    for _ in range(ctx.pick(800, 8000) * boost):
+    for _ in range(ctx.pick(600, 6000) * boost):
         mods = rng.choice(MODS)
         l = rand_leg(rng, mods, maxb=rng.choice([3, 3, 5]))
         n = sum(l[0])
@@ -568,7 +568,7 @@ def main(ctx):
     ctx.cov['traces_validated_against_impl'] += len(lits)
     # ---------------- arrays: combine_legs / split_legs / sort_legcharge / as_completely_blocked, both configs
     acases = [c['case'] for c in common.corpus_cases('C06') if c.get('stream') == 'array']
-    na = ctx.pick(500, 5000) * boost
+    na = ctx.pick(300, 3500) * boost
     for k in range(na):
         c = rand_array_case(rng, ctx.seed * 1000003 + k)
         tot = 1
